@@ -101,10 +101,21 @@ async fn run_case(case: &Case) -> Value {
     let mut rng = Lcg(case.seed);
     let mut events = vec![];
     let mut pos = case.start as usize;
+    let mut last_skip = false;
     for _ in 0..400 {
         let remaining = total.saturating_sub(pos);
-        let op = if remaining > 1 && rng.next(4) == 0 {
-            ReadOp::Skip(1 + rng.next((remaining as u64 - 1).min(9)) as usize)
+        // skips come in bursts (a skip directly after a skip) and in three sizes: within a block,
+        // over a few blocks, far ahead
+        let want_skip = if last_skip { rng.next(2) == 0 } else { rng.next(4) == 0 };
+        last_skip = false;
+        let op = if remaining > 1 && want_skip {
+            last_skip = true;
+            let cap = match rng.next(10) {
+                0..=4 => 9,
+                5..=7 => 40,
+                _ => 250,
+            };
+            ReadOp::Skip(1 + rng.next((remaining as u64 - 1).min(cap)) as usize)
         } else {
             ReadOp::Next([0usize, 1, 2, 3, 5, 17, 64][rng.next(7) as usize])
         };
